@@ -24,10 +24,42 @@ Lemma gen_wiring_CubePartition_cube_index :
   wsrc_CubePartition_cube_index = Some (WAttr (WSelf "_cube") "cube_index").
 Proof. reflexivity. Qed.
 
+(* _Slice.tab_label *)
+Lemma gen_wiring_Slice_tab_label :
+  wsrc_Slice_tab_label = Some (WIf (WCmp "==" (WAttr (WIndex (WAttr (WSelf "_cube") "dimensions")
+      [WInt (0)%Z]) "dimension_type") (WAttr (WGlobal "DT") "CA_SUBVAR")) (WAttr (WIndex (WAttr
+      (WIndex (WAttr (WSelf "_cube") "dimensions") [WInt (0)%Z]) "valid_elements") [WSelf
+      "_slice_idx"]) "label") (WStr "")).
+Proof. reflexivity. Qed.
+
+(* _Slice.tab_alias *)
+Lemma gen_wiring_Slice_tab_alias :
+  wsrc_Slice_tab_alias = Some (WIf (WCmp "==" (WAttr (WIndex (WAttr (WSelf "_cube") "dimensions")
+      [WInt (0)%Z]) "dimension_type") (WAttr (WGlobal "DT") "CA_SUBVAR")) (WAttr (WIndex (WAttr
+      (WIndex (WAttr (WSelf "_cube") "dimensions") [WInt (0)%Z]) "valid_elements") [WSelf
+      "_slice_idx"]) "alias") (WStr "")).
+Proof. reflexivity. Qed.
+
 (* _Slice._measures *)
 Lemma gen_wiring_Slice__measures :
   wsrc_Slice__measures = Some (WCall (WGlobal "SecondOrderMeasures") [WSelf "_cube"; WSelf
       "_dimensions"; WSelf "_slice_idx"] []).
+Proof. reflexivity. Qed.
+
+(* _Strand.tab_label *)
+Lemma gen_wiring_Strand_tab_label :
+  wsrc_Strand_tab_label = Some (WIf (WCmp "==" (WAttr (WIndex (WAttr (WSelf "_cube") "dimensions")
+      [WInt (0)%Z]) "dimension_type") (WAttr (WGlobal "DT") "CA_SUBVAR")) (WAttr (WIndex (WAttr
+      (WIndex (WAttr (WSelf "_cube") "dimensions") [WInt (0)%Z]) "valid_elements") [WSelf
+      "_slice_idx"]) "label") (WStr "")).
+Proof. reflexivity. Qed.
+
+(* _Strand.tab_alias *)
+Lemma gen_wiring_Strand_tab_alias :
+  wsrc_Strand_tab_alias = Some (WIf (WCmp "==" (WAttr (WIndex (WAttr (WSelf "_cube") "dimensions")
+      [WInt (0)%Z]) "dimension_type") (WAttr (WGlobal "DT") "CA_SUBVAR")) (WAttr (WIndex (WAttr
+      (WIndex (WAttr (WSelf "_cube") "dimensions") [WInt (0)%Z]) "valid_elements") [WSelf
+      "_slice_idx"]) "alias") (WStr "")).
 Proof. reflexivity. Qed.
 
 (* _Strand._measures *)
